@@ -33,7 +33,7 @@ for pid in ids:
             meta = {"summary": "(agent meta.json unreadable: %s)" % e}
         out = {"property": pid, "summary": meta.get("summary"), "needs": meta.get("needs"), "files": meta.get("files"),
                "author": "independent sub-agent (round %s) given only the property text%s and a scratch worktree of /repo @ e74a44c"
-                         % ({"m": "1", "r": "2", "s": "3"}.get(prefix, "?"), " plus one-line summaries of round-1 ideas to avoid" if prefix in ("r", "s") else ""),
+                         % ({"m": "1", "r": "2", "s": "3", "t": "4"}.get(prefix, "?"), " plus one-line summaries of round-1 ideas to avoid" if prefix in ("r", "s", "t") else ""),
                "agent_verified": meta.get("verified"),
                "confirmed_by_me": {"how": "scratch worktree /tmp/wt-%s: git apply patch.diff; `cargo test --workspace --offline` (whole baseline suite); demo run with the patch and after `git apply -R`" % pid,
                                    "result": r}}
